@@ -3,6 +3,7 @@ package main
 import (
 	"bufio"
 	"bytes"
+	"errors"
 	"fmt"
 	"net"
 	"net/http"
@@ -47,6 +48,9 @@ func c09Session(c *Ctx, server bool, pmd bool, fault string, k int, tag string) 
 		tap.failRead = tap.nRead + k
 	case "deadline-error":
 		tap.failDead = tap.nDead + k
+	case "dead-link":
+		// a broken link: every write from the k-th on fails, with the error type a real socket returns
+		tap.writeDeadFrom, tap.writeErr = tap.nWrite+k, &net.OpError{Op: "write", Net: "tcp", Err: errors.New("broken pipe")}
 	}
 	tap.mu.Unlock()
 	masked := server
@@ -66,6 +70,11 @@ func c09Session(c *Ctx, server bool, pmd bool, fault string, k int, tag string) 
 	results := []int{}
 	ok := runWithTimeout(15*time.Second, func() {
 		defer func() { pan = recover() }()
+		if fault == "dead-link" {
+			// the first failing call is one the library refuses for its CONTENT (text that is not UTF-8): the teardown it starts
+			// then meets the broken link when it writes the Close frame - two errors of different kinds on one connection
+			results = append(results, rawSend(conn, sendOp{API: "message", Opcode: 1, Slices: [][]byte{{'b', 'a', 'd', 0xff}}}))
+		}
 		r0 := rawSend(conn, sendOp{API: "broadcast", Opcode: 2, Slices: [][]byte{[]byte("to every subscriber")}})
 		results = append(results, r0)
 		r1 := rawSend(conn, sendOp{API: "message", Opcode: 1, Slices: [][]byte{[]byte("hello")}})
@@ -87,6 +96,11 @@ func c09Session(c *Ctx, server bool, pmd bool, fault string, k int, tag string) 
 	}
 	if pan != nil {
 		return fmt.Sprintf("panic: %v", pan), "fault-panic", replay
+	}
+	for i, r := range results {
+		if r == 9 {
+			return fmt.Sprintf("write call #%d of the session panicked", i), "fault-panic", replay
+		}
 	}
 	opens, closes := 0, 0
 	var cerr error
@@ -144,14 +158,14 @@ func c09Session(c *Ctx, server bool, pmd bool, fault string, k int, tag string) 
 }
 
 func runC09(c *Ctx) error {
-	c.Sum.Rule = "scripted sessions (buffered write, streamed 3-segment write, async write, deadline call, read loop over text / ping / fragments / close with an echoing handler, local close) on both roles with and without compression, with ONE fault injected at every index k of every transport operation kind {write error, short write, read error, deadline error, disconnect after k inbound bytes}: no panic, finishes, OnClose exactly once with an error, transport closed exactly once, later writes rejected without touching the wire, nothing after the Close frame, goroutine count back to baseline; handshakes in both roles with a fault at every write/read index: error returned, no connection, transport closed; D10 replayed as a known finding; non-trivial = all; distinct by (role, fault, k)"
+	c.Sum.Rule = "scripted sessions (buffered write, streamed 3-segment write, async write, deadline call, read loop over text / ping / fragments / close with an echoing handler, local close) on both roles with and without compression, with ONE fault injected at every index k of every transport operation kind {write error, short write, read error, deadline error, disconnect after k inbound bytes, a link dead for writes from the k-th on (net.OpError) met first by the Close frame of a content-rejected call}: no panic, finishes, OnClose exactly once with an error, transport closed exactly once, later writes rejected without touching the wire, nothing after the Close frame, goroutine count back to baseline; handshakes in both roles with a fault at every write/read index: error returned, no connection, transport closed; D10 replayed as a known finding; non-trivial = all; distinct by (role, fault, k)"
 	for _, server := range []bool{true, false} {
 		for _, pmd := range []bool{false, true} {
-			for _, fault := range []string{"none", "write-error", "short-write", "read-error", "deadline-error", "disconnect"} {
-				if c.quick() && pmd && !server && fault != "write-error" && fault != "short-write" {
+			for _, fault := range []string{"none", "write-error", "short-write", "read-error", "deadline-error", "disconnect", "dead-link"} {
+				if c.quick() && pmd && !server && fault != "write-error" && fault != "short-write" && fault != "dead-link" {
 					continue // quick tier: a compressing client only under write faults (its compressor is shared with Broadcast and locked separately)
 				}
-				maxK := map[string]int{"none": 1, "write-error": 12, "short-write": 12, "read-error": 14, "deadline-error": 2, "disconnect": 60}[fault]
+				maxK := map[string]int{"none": 1, "write-error": 12, "short-write": 12, "read-error": 14, "deadline-error": 2, "disconnect": 60, "dead-link": 3}[fault]
 				step := 1
 				if fault == "disconnect" && c.quick() {
 					step = 3
